@@ -21,6 +21,7 @@ func propC06(r *Report, tier string) {
 	ruleSearchBeforeReverse(r, "K5-search-before-reverse")
 	ruleCursorLayoutAgreement(r, "K11-cursor-layout")
 	ruleCursorEncodingMirrorsSortMode(r, "K12-cursor-encoding")
+	rulePooledMatchResetIsTotal(r, "K9b-pooled-match-reset-total")
 	r.Floor("K16-comparator-table", 4)
 	r.Floor("K7-comparator-parametricity", 3)
 	r.Floor("K16-store-polarity", 2)
